@@ -30,6 +30,7 @@ EXPLANATION = (
     ' R1 also checks the converse: every validator path that established function code != cmd ends in the RequestRejectedException raise.'
     ' R1 evaluates the message expression of every rejection raise site for all 256 code bytes (any representation of the reason table).'
     ' (R5) for a well-formed exception answer (function code = cmd | 0x80, one code byte, RTU: correct CRC) to a read, write and write-multi command every validator outcome other than the rejection raise is refuted.'
+    ' (R6) no loop callback schedules a method of the protocol object after completing the response future: the deferred call would act on the next request.'
 )
 
 
@@ -130,6 +131,9 @@ def check(ctx: Ctx, rep: Report):
     rep.check(ok, "C08.R1", "exception-field", rejected.module.relpath, "RequestRejectedException keeps its message",
               bad="RequestRejectedException.__init__ no longer stores the message it is given")
     r5_exception_frame(ctx, rep, fams, rejected)
+    rep.rule("C08.R6", "the rejection is delivered with everything settled: no call on the protocol object is deferred (call_soon / call_later) after the future was completed - it would hit the caller's next request (retransmission, lost reason)", 6)
+    from .proto import no_deferred_after_completion
+    no_deferred_after_completion(ctx, rep, "C08.R6")
     r2(ctx, rep, rejected)
     r3(ctx, rep, rejected, table)
     # ---- R4 shared with C07: an exception frame answering a retransmission must not be glued to a fragment of the
